@@ -9,6 +9,7 @@ open Drvlib
    M <project> <entry>        -> own_match / any_match bits
    R <basename> <archive>     -> fetch_from_wheel
    W <basename> <archive> <nv> (<s> <0|1>)* <nr> (<s> <0|1>)*  -> extract_whl with table oracles
+   Q <n> (W <path> <archive> | R <path>)* <tables as for W>  -> run_ops: answers joined by " ; "
    archive ::= B | Z <n> (<name> (C <text> | X))*                                       *)
 let opt_s = function None -> "N" | Some v -> "S " ^ cl_hex v
 let strs l = string_of_int (List.length l) ^ String.concat "" (List.map (fun s -> " " ^ cl_hex s) l)
@@ -55,6 +56,16 @@ let handle line =
     (match extract_whl vok rok b a with
      | Ok ((n, v), rs) -> "OK " ^ cl_hex n ^ " " ^ opt_s v ^ " " ^ strs rs
      | Err e -> "ERR " ^ print_exc e)
+  | "Q" ->
+    let ops = next_list st (fun st -> match next st with
+      | "W" -> let p = next_str st in let a = next_archive st in WriteFile (p, a)
+      | "R" -> ReadWheel (next_str st)
+      | c -> failwith ("bad op " ^ c)) in
+    let vok = next_table st in let rok = next_table st in
+    String.concat " ; " (List.map (function
+      | NoSuchFile -> "NOFILE"
+      | Answer (Ok ((n, v), rs)) -> "OK " ^ cl_hex n ^ " " ^ opt_s v ^ " " ^ strs rs
+      | Answer (Err e) -> "ERR " ^ print_exc e) (run_ops vok rok [] ops))
   | c -> failwith ("bad command " ^ c)
 
 let () = iter_lines handle
